@@ -65,7 +65,7 @@ THOROUGH = QUICK + [
     _c('coarse_storage', 'coarse', dict(T=4, kind='storage', eff=0.75, ec=True), 'A', dict(name='co', coarse=True)),
 ] + MSD_IRREGULAR[1:]
 BOUNDS = dict(quick='shapes %s; T<=4' % [c[0] for c in QUICK], thorough='shapes %s; T<=6' % [c[0] for c in THOROUGH])
-OUTSIDE = ['combinations of MIP options with blocks', 'per-minor-step level of a coarse-frequency storage (checked at coarse interval ends only)']
+OUTSIDE = ['periodic storages on grids with unequal steps (bounds of merged variables are group means by design)', 'combinations of MIP options with blocks', 'per-minor-step level of a coarse-frequency storage (checked at coarse interval ends only)']
 ASSUMPTIONS = ['reported discharge carries a negative sign (EAO convention min(0,-x)); accepted',
                'level_t is the level at the END of step t']
 
@@ -79,8 +79,8 @@ def cases(tier, seed):
     out = [(cid, dict(shape=SHAPE_OF[cid], kw=dict(kw), level=level, opts=opts)) for cid, kw, level, opts in lst]
     # the same storages on other kinds of grid (irregular steps, other main units, zone-aware)
     for cid, kw, level, opts in lst:
-        if 'freq' in kw or 'unit' in kw or 'blocks' in opts or opts.get('coarse') or opts.get('warmup'):
-            continue
+        if 'freq' in kw or 'unit' in kw or 'blocks' in opts or opts.get('coarse') or opts.get('warmup') or SHAPE_OF[cid] == 'periodic':
+            continue      # periodic: merged variables carry the group MEAN of the bounds (pinned by a maintainer test) -- per-step limits need equal steps
         for gv in shapes.GRID_VARIANTS:
             if tier == 'thorough' or (cid, gv) in GRIDV_QUICK:
                 out.append(('%s@%s' % (cid, gv), dict(shape=SHAPE_OF[cid], kw=dict(kw, gridv=gv), level=level, opts=opts)))
